@@ -12,9 +12,34 @@ TNAMES = {0: "header", 1: "string_id", 2: "type_id", 3: "proto_id", 4: "field_id
           0x2006: "annotations_directory"}
 
 
+def ev_repr(cm, v, depth=0):
+    """printable form of a real EncodedValue (for comparing two parses of the same content)"""
+    x = v.get_value()
+    t = v.get_value_type()
+    if t == W.V_ARRAY:
+        return [t, [ev_repr(cm, e, depth + 1) for e in x.get_values()]]
+    if t == W.V_ANNOTATION:
+        return [t, cm.get_type(x.get_type_idx()), [(cm.get_string(e.get_name_idx()), ev_repr(cm, e.get_value(), depth + 1)) for e in x.get_elements()]]
+    return [t, repr(x)]
+
+
 def full_dump(dx):
     d = real_dump(dx)
-    return {"classes": d, "strings": [W.utf16_units(s) for s in dx.get_strings()]}
+    cm = dx.get_class_manager()
+    extra = []
+    for c in dx.get_classes():
+        anns = [[cm.get_type(a.get_type_idx()), [(cm.get_string(e.get_name_idx()), ev_repr(cm, e.get_value())) for e in a.get_elements()]] for a in c._get_annotation_type_ids()]
+        inits = [(f.get_name(), None if f.get_init_value() is None else ev_repr(cm, f.get_init_value())) for f in c.get_fields()]
+        dbg = []
+        for mt in c.get_methods():
+            if mt.get_code() is not None and mt.get_code().get_debug_info_off():
+                try:
+                    di = mt.get_debug()
+                    dbg.append((mt.get_name(), di.get_line_start(), di.get_parameters_size(), list(di.get_parameter_names())))
+                except Exception as e:
+                    dbg.append((mt.get_name(), "raises", type(e).__name__))
+        extra.append({"annotations": anns, "static_values": inits, "debug": dbg})
+    return {"classes": d, "strings": [W.utf16_units(s) for s in dx.get_strings()], "extra": extra}
 
 
 def tiny_models():
@@ -75,6 +100,8 @@ def shard(ctx, arg):
         rng = ctx.rng("c07", a)
         for k in range(b):
             m = G.gen_model(rng, nclasses=rng.choice([1, 2, 3, 5]))
+            if rng.random() < 0.7:
+                G.enrich(rng, m)
             data0, w = W.write_dex(m, want_writer=True)
             n = len(w.map_entries)
             try:
@@ -101,7 +128,7 @@ def run(ctx):
                 "A wrapper on MapItem.parse logs the order in which section types are parsed. distinct non-trivial = distinct (set of map entry types, #classes)")
     ctx.assumptions = ["vf/model/dexw.py writes valid files; permuting map entries does not move any data"]
     args = [["tiny", 0, b] for b in range(8)] + [["tiny", 1, b] for b in range(8)]
-    n = 48 if ctx.quick else 1600
+    n = 96 if ctx.quick else 3200
     args += [["rand", i, n // 16] for i in range(16)]
     ctx.run_shards(MOD, "shard", args, timeout=3000)
     ctx.exhaustive = True
